@@ -447,3 +447,65 @@ func TestSub_roundtrip(t *testing.T) { vk.RunRapid(t, subRoundtrip) }
 func TestSub_stream(t *testing.T)    { vk.RunRapid(t, subStream) }
 
 func TestReplay(t *testing.T) { vk.Replay(t) }
+
+// ---------------------------------------------------------------------------------------
+// native coverage-guided fuzzing (thorough tier)
+
+var subRoundtripFuzz = vk.Register(&vk.Sub[Case]{Name: "roundtrip_fuzz", Gen: genRoundtrip, Check: check})
+
+func FuzzSub_roundtrip_fuzz(f *testing.F) { vk.RunFuzz(f, subRoundtripFuzz) }
+
+// byte-level target: arbitrary bytes are parsed by poly and by the harness's reference FASTA
+// reader (differential oracle). Inputs without a header before the first sequence line are
+// outside the format and are discarded.
+type BytesCase struct {
+	Data []byte `json:"data"`
+}
+
+func referenceParse(data []byte) ([]fasta.Fasta, bool) {
+	var recs []fasta.Fasta
+	cur := -1
+	for _, line := range strings.Split(string(data), "\n") {
+		line = strings.TrimSuffix(line, "\r")
+		switch {
+		case line == "" || line[0] == ';':
+		case line[0] == '>':
+			recs = append(recs, fasta.Fasta{Name: line[1:]})
+			cur++
+		default:
+			if cur < 0 {
+				return nil, false
+			}
+			recs[cur].Sequence += line
+		}
+	}
+	return recs, len(recs) > 0
+}
+
+func checkBytes(c BytesCase) error {
+	want, ok := referenceParse(c.Data)
+	if !ok {
+		return nil
+	}
+	got, err := bounded("Parse(bytes)", func() []fasta.Fasta { return fasta.Parse(bytes.NewReader(c.Data)) })
+	if err != nil {
+		return err
+	}
+	return same(fmt.Sprintf("Parse of %d fuzzed bytes", len(c.Data)), got, want)
+}
+
+var subBytes = vk.Register(&vk.Sub[BytesCase]{Name: "bytes_fuzz", Check: checkBytes})
+
+func FuzzSub_bytes_fuzz(f *testing.F) {
+	if b, err := os.ReadFile("/repo/io/fasta/data/base.fasta"); err == nil {
+		f.Add(b)
+	}
+	f.Add([]byte(">a\nACGT\n>b\n\nAC\nGT\n"))
+	f.Add([]byte("; comment\r\n>x y z\r\nAC\r\n;c\r\nGT"))
+	f.Fuzz(func(t *testing.T, data []byte) {
+		c := BytesCase{Data: data}
+		if err := vk.SafeCheck(subBytes, c); err != nil {
+			vk.FailFuzz(t, subBytes, c, err)
+		}
+	})
+}
